@@ -23,7 +23,7 @@ def model_features(model):
 
 @st.composite
 def model_and_graphs(draw, n_graphs, max_nodes, sql=False, **model_kw):
-    model = draw(MI.model_ir(max_classes=5, grammar="orm", extras=True, uid=True, allow_underscore=True, **model_kw))
+    model = draw(MI.model_ir(max_classes=5, grammar="orm", extras=True, uid=True, allow_underscore=True, allow_mixin=True, **model_kw))
     graphs = [draw(G.graph_ir(model, max_nodes=max_nodes, sql=sql)) for _ in range(n_graphs)]
     return {"model": model, "graphs": graphs, "shared_state": draw(st.booleans())}
 
@@ -80,6 +80,8 @@ class C04(Check):
                 classes_.add(f"shared{min(stats['shared'], 3)}")
                 if any(nd["c"] == "Vec" for nd in graph["nodes"]):
                     classes_.add("alternative_mapping")
+                if any(nd["c"] not in G.EXTRA_NODES and model["classes"][nd["c"]].get("base2") is not None for nd in graph["nodes"]):
+                    classes_.add("instance_of_class_with_two_bases")
                 if any(nd["c"] == "Title" for nd in graph["nodes"]):
                     classes_.add("subclass_of_alternatively_mapped_class")
                 if stats["shared_title"]:
